@@ -33,3 +33,21 @@ func (brr *BalanceRR) VerifC03Weights() []int {
 	}
 	return out
 }
+
+// VerifC03SS is the slow-start bookkeeping of one backend (read-only copy).
+type VerifC03SS struct {
+	Weight      int  // effective weight used by the filters (x100 scale)
+	Final       int  // weightSS.final
+	InSlowStart bool // in slow-start phase
+}
+
+// VerifC03SlowStart returns the slow-start bookkeeping in list order.
+func (brr *BalanceRR) VerifC03SlowStart() []VerifC03SS {
+	brr.Lock()
+	defer brr.Unlock()
+	out := make([]VerifC03SS, 0, len(brr.backends))
+	for _, b := range brr.backends {
+		out = append(out, VerifC03SS{Weight: b.weight, Final: b.weightSS.final, InSlowStart: b.inSlowStart})
+	}
+	return out
+}
